@@ -335,6 +335,51 @@ struct FDrv {
         pred2("islessgreater", [](V a, V b) { return avel::islessgreater(a, b); });
         pred2("isunordered", [](V a, V b) { return avel::isunordered(a, b); });
     }
+    // C11, all operations: the flush-to-zero / denormals-are-zero bits and the rounding mode the caller set must
+    // survive every call.  The other families run with FTZ = DAZ = 0, where an operation that "restores" the control
+    // word without those bits goes unnoticed; here every operation is called with them set (results are not
+    // recorded: the lane semantics assume FTZ = DAZ = 0) and only the environment facts are emitted.
+    void fenv() {
+        std::vector<S> vals = fp_lattice<S>(0);
+        for (unsigned preset = 1; preset < 4; ++preset) {
+            const unsigned keep = _mm_getcsr();
+            _mm_setcsr(keep | ((preset & 1) ? 0x8000u : 0u) | ((preset & 2) ? 0x0040u : 0u));
+            const std::string tag = std::string("@ftz") + ((preset & 1) ? "1" : "0") + "daz" + ((preset & 2) ? "1" : "0");
+            for (std::size_t base = 0; base < vals.size(); base += N) {
+                A a, b;
+                IA e;
+                for (unsigned j = 0; j < N; ++j) {
+                    a[j] = vals[(base + j) % vals.size()];
+                    b[j] = vals[(base * 7 + j * 3 + 1) % vals.size()];
+                    e[j] = IS(int(j * 37 + base) % 300 - 150);
+                }
+                opaque(a);
+                opaque(b);
+                opaque(e);
+                V x(a), y(b), r = x;
+                IV ie(e), ir = ie;
+                M m = x < y;
+#define ENVOP(name, expr) { set_label(tn, (std::string(name) + tag).c_str()); guarded([&] { expr; }); opaque(r); opaque(ir); opaque(m); }
+                ENVOP("add", r = x + y) ENVOP("sub", r = x - y) ENVOP("mul", r = x * y) ENVOP("fdiv", r = x / y) ENVOP("sqrt", r = avel::sqrt(x))
+                ENVOP("neg", r = -x) ENVOP("inc", r = x; ++r) ENVOP("dec", r = x; --r)
+                ENVOP("ceil", r = avel::ceil(x)) ENVOP("floor", r = avel::floor(x)) ENVOP("trunc", r = avel::trunc(x)) ENVOP("round", r = avel::round(x))
+                ENVOP("nearbyint", r = avel::nearbyint(x)) ENVOP("rint", r = avel::rint(x))
+                ENVOP("frexp", r = avel::frexp(x, &ir)) ENVOP("ldexp", r = avel::ldexp(x, ie)) ENVOP("scalbn", r = avel::scalbn(x, ie))
+                ENVOP("ilogb", ir = avel::ilogb(x)) ENVOP("logb", r = avel::logb(x)) ENVOP("frac", r = avel::frac(x))
+                ENVOP("fmax", r = avel::fmax(x, y)) ENVOP("fmin", r = avel::fmin(x, y)) ENVOP("fdim", r = avel::fdim(x, y)) ENVOP("fmod", r = avel::fmod(x, y))
+                ENVOP("min", r = avel::min(x, y)) ENVOP("max", r = avel::max(x, y)) ENVOP("clamp", r = avel::clamp(x, avel::min(x, y), avel::max(x, y)))
+                ENVOP("abs", r = avel::abs(x)) ENVOP("neg_abs", r = avel::neg_abs(x)) ENVOP("copysign", r = avel::copysign(x, y))
+                ENVOP("blend", r = avel::blend(m, x, y)) ENVOP("keep", r = avel::keep(m, x)) ENVOP("negate", r = avel::negate(m, x))
+                ENVOP("fpclassify", ir = avel::fpclassify(x)) ENVOP("isnan", m = avel::isnan(x)) ENVOP("isinf", m = avel::isinf(x))
+                ENVOP("isfinite", m = avel::isfinite(x)) ENVOP("isnormal", m = avel::isnormal(x)) ENVOP("signbit", m = avel::signbit(x))
+                ENVOP("isgreater", m = avel::isgreater(x, y)) ENVOP("isless", m = avel::isless(x, y)) ENVOP("islessgreater", m = avel::islessgreater(x, y))
+                ENVOP("isunordered", m = avel::isunordered(x, y)) ENVOP("eq", m = x == y) ENVOP("ne", m = x != y) ENVOP("lt", m = x < y) ENVOP("ge", m = x >= y)
+                ENVOP("b2v", r = V(m)) ENVOP("nz", m = M(x)) ENVOP("count", ir = IV(IS(avel::count(x))))
+#undef ENVOP
+            }
+            _mm_setcsr(keep);
+        }
+    }
     // C03: mask(vector) for floats (compares unequal to zero) and Vector(mask) (1.0 / 0.0)
     void fmask() {
         pred1("nz", [](V a) { return M(a); });
@@ -709,7 +754,7 @@ int main(int argc, char** argv) {
     std::uint64_t seed = std::strtoull(argv[3], nullptr, 10);
     if (!open_sink(argv[4])) return 2;
     install_handlers();
-    const bool moded = family == "farith" || family == "fround" || family == "fmanip" || family == "fsweep";
+    const bool moded = family == "farith" || family == "fround" || family == "fmanip" || family == "fsweep" || family == "fenv";
     for (unsigned rc = 0; rc < (moded ? 4u : 1u); ++rc) {
         if (family == "fsweep" && rc >= 2) break;     // the exhaustive sweep runs under round-to-nearest and round-down
         set_rounding(rc);
@@ -721,6 +766,7 @@ int main(int argc, char** argv) {
         if (family == "fcmp") d.fcmp();            \
         else if (family == "fsweep") d.fsweep(rc == 0); \
         else if (family == "fmask") d.fmask();     \
+        else if (family == "fenv") d.fenv();       \
         else dispatch(d, family);                  \
     }
         if (!std::getenv("VH_SCALAR_ONLY")) {
